@@ -28,6 +28,12 @@ def main(run, replay=None):
         "fresh / trained / data-dependent init / batch-norm passes before each save, random walks); non-trivial = distinct "
         "(model, operation, input kind, preceding action); each SaveLoadFresh compares a model rebuilt under another seed"
     )
+    if replay and replay["case"].get("kind") == "reload":
+        from vcore import reload as RL
+
+        for r in RL.replay(run, replay["case"]):
+            run.violation({"kind": "reload", "model": replay["case"]["name"]}, "replayed: " + r, replay["case"])
+        return
     if replay:
         return replay_case(run, replay["case"], VERDICTS)
     thorough = run.tier == "thorough"
@@ -40,8 +46,18 @@ def main(run, replay=None):
     for n in keys_bad:
         run.note_drift("state-dict keys of a fresh %s differ from the saved ones" % n)
     run.extra["reloads_compared"] = reloads
+    # every checkpoint protocol of spec/Reload.tla on the zoo models
+    from vcore import reload as RL
+
+    seen = set()
+    for f in RL.run_leg(run):
+        if f["name"] in seen:
+            continue
+        seen.add(f["name"])
+        run.violation({"kind": "reload", "model": f["name"], "route": f["proto"]["route"], "eval_first": f["proto"]["eval_first"], "used": f["proto"]["used"]}, f["detail"], {k: v for k, v in f.items() if k != "detail"})
     run.exhaustive = thorough
     run.assumptions = [
         "same function = bit-identical forward, inverse, log_prob, transform_to_noise and fixed-seed sample on probe inputs in evaluation mode",
+        "checkpoint protocols (Reload.tla): 288 combinations of source history, destination mode / smoke runs before the load, route (direct, through a container, a plain dict without _metadata) and train()/eval() afterwards; quick tier: 14 protocols per model, thorough: all",
         "the fresh model is built by the same zoo constructor under a different torch seed and with differently perturbed parameters",
     ]
